@@ -92,6 +92,9 @@ func (g *gen) freshName(sc *scope, vocab []string, label string, ok func(string)
 	name := base
 	for i := 2; !sc.free(name) || (ok != nil && !ok(name)); i++ {
 		name = base + strconv.Itoa(i)
+		if i == 40 {
+			base = "f" + base // the base itself can never satisfy ok (e.g. "_1" as a map field)
+		}
 		if i > 10000 {
 			panic("schema: cannot find a free name for " + base)
 		}
